@@ -81,6 +81,13 @@ func genC10(rt *rapid.T) C10Case {
 	w[OpEditLimit] = 1
 	o.weights = w
 	c := C10Case{W: genWorld(rt, o), Other: rapid.Bool().Draw(rt, "otherSet")}
+	if rapid.IntRange(0, 7).Draw(rt, "recreatedTwice") == 0 {
+		// the name is re-used twice in a row, each incarnation reconciled while still at generation 1; the second
+		// one may select differently
+		c.W.FreshController = true
+		c.W.Ops = append(c.W.Ops, Op{K: OpSetRecreate, A: 1}, Op{K: OpReconcile}, Op{K: OpSetRecreate, A: rapid.SampledFrom([]int{0, 0, 1}).Draw(rt, "rcSel"), B: rapid.IntRange(0, 1).Draw(rt, "rcEra")},
+			Op{K: OpReconcile}, Op{K: OpKubelet, A: rapid.IntRange(0, 20).Draw(rt, "rcK"), B: 0}, Op{K: OpReconcile})
+	}
 	if c.Other && rapid.IntRange(0, 2).Draw(rt, "otherLive") != 0 {
 		c.OtherReplicas = rapid.IntRange(0, 3).Draw(rt, "otherReplicas")
 		n := rapid.IntRange(1, 4).Draw(rt, "otherN")
